@@ -213,6 +213,23 @@ def statistics(out: Outcome, rng, n: int) -> None:
             lines += [f"x mu {f2h(x)}", f"x eu {f2h(x)}", f"x cu {f2h(x)}", f"x pu {f2h(x)}"]
             expect += [("Mean", m.get(), xs[:t]), ("EWMA", e.get(), xs[:t]), ("CircularMean", c.get(), xs[:t]), ("PrequentialError", pv, xs[:t])]
         out.case({"statistics": True, "n": len(xs), "alpha": a, "size": size, "h": hash(tuple(xs)) & 0xFFFFFF})
+    # PrequentialError over hundreds to thousands of values (fading factors of the literature: 0.99 .. 0.999, whose normaliser converges slowly), against its
+    # definition evaluated non-incrementally at checkpoints
+    for pa in (0.9, 0.99, 0.995, 0.999, 1.0):
+        n_long = rng.randint(300, 900) if n < 100 else rng.randint(1500, 4000)      # (n: number of cases requested = the tier)
+        ys = [float(rng.random() < rng.choice([0.1, 0.3])) for _ in range(n_long)]
+        pm = PrequentialError(alpha=pa)
+        checkpoints = {rng.randint(100, n_long) for _ in range(12)} | {127, 128, 129, 130, 255, 256, 257, n_long}
+        for t, x in enumerate(ys, 1):
+            pv = pm(error_value=x)
+            if t in checkpoints:
+                num = math.fsum(pa ** (t - i) * ys[i - 1] for i in range(1, t + 1))
+                den = math.fsum(pa ** (t - i) for i in range(1, t + 1))
+                if abs(float(pv) - num / den) > 1e-9:
+                    out.violation(f"PrequentialError(alpha={pa}): {float(pv)!r} differs from the fading-factor definition {num / den!r} after {t} values",
+                                  {"values": ys[:t], "prequential_alpha": pa, "kind": "long prequential"})
+                    break
+        out.case({"prequential_long": pa, "n": n_long})
     res = run_driver(lines)
     for got, exp in zip(res, expect):
         if exp is None:
